@@ -497,7 +497,17 @@ func (c *Controller) LoadCommitteeData() (data *lib.CommitteeData, err lib.Error
 func (c *Controller) Syncing() *atomic.Bool { return c.isSyncing }
 
 // ResetFSM() resets the underlying state machine to last valid state
-func (c *Controller) ResetFSM() { c.FSM.Reset() }
+func (c *Controller) ResetFSM() { c.resetFSM() }
+
+// resetFSM() discards the state machine's working state together with the cached result of the last
+// validated proposal: that cache stands for "the working state already holds this block applied", so it
+// must never outlive the working state it describes
+func (c *Controller) resetFSM() {
+	if c.Consensus != nil {
+		c.Consensus.BlockResult = nil
+	}
+	c.FSM.Reset()
+}
 
 // RootChainHeight() returns the height of the canopy root-chain
 func (c *Controller) RootChainHeight() uint64 {
